@@ -306,6 +306,8 @@ def refit_sequence_probe(run, rng):
         m = HierarchicalGaussianMixture(n_init=1, max_iterations=1000, min_points=None, threshold_modifier=1.0, covariance_type="full", normalize=False)
         X2 = np.vstack([nr.randn(60, 2) * 0.3, nr.randn(60, 2) * 0.3 + 6.0])
         m.fit(X2, np.ones(len(X2)))
+        m.predict(X2)
+        m.predict_proba(X2)             # queries between the two fits: nothing may be remembered from them either
         k_small = rng.choice([5, 6, 8])  # between 2*2 and 2*5 - 1
         X5 = np.vstack([nr.randn(120, 5) * 0.3, nr.randn(k_small, 5) * 0.05 + 12.0])
         m.fit(X5, np.ones(len(X5)))
@@ -315,9 +317,40 @@ def refit_sequence_probe(run, rng):
         run.case(key=("refit-sequence", t), nontrivial=True)
         if lab.min() < 0 or lab.max() >= K:
             run.fail("training-label-out-of-range", f"second fit: labels_ range [{lab.min()},{lab.max()}] for K={K}", first_dim=2, second_dim=5)
+        Qp = np.vstack([X5, nr.randn(15, 5) * 3.0 + 4.0])
+        fresh = HierarchicalGaussianMixture(n_init=1, max_iterations=1000, min_points=None, threshold_modifier=1.0, covariance_type="full", normalize=False)
+        fresh.fit(X5, np.ones(len(X5)))
+        pl, pp = m.predict(Qp), m.predict_proba(Qp)
+        if pl.min() < 0 or pl.max() >= K or pp.shape != (len(Qp), K):
+            run.fail("predicted-label-out-of-range", f"after a refit: predict range [{pl.min()},{pl.max()}], predict_proba shape {pp.shape} for K={K}",
+                     first_dim=2, second_dim=5)
+        elif fresh.n_clusters_ == K and not np.array_equal(pl, fresh.predict(Qp)):
+            run.fail("predict-depends-on-earlier-fit", "a refitted clusterer predicts other labels than a fresh clusterer fitted on the same data",
+                     first_dim=2, second_dim=5)
         if K > 1 and sizes.min() < 10:
             run.fail("child-below-min-points", f"a clusterer first fitted on 2-d data accepts, on 5-d data, a split with cluster sizes {sizes.tolist()} "
                      f"(default minimum 2 * n_features = 10)", first_dim=2, second_dim=5, small_group=k_small)
+
+
+def refit_fewer_clusters_probe(run, rng):
+    """fit on three blobs, query, refit the same object on one blob: labels and probabilities refer to the second model"""
+    from tempest.cluster import HierarchicalGaussianMixture
+    for norm in (False, True):
+        nr = np.random.RandomState(rng.randrange(2 ** 31))
+        A = np.vstack([nr.randn(80, 2) * 0.2 + c for c in ([0, 0], [8, 0], [0, 8])])
+        B = nr.randn(100, 2) * 0.2 + 3.0
+        m = HierarchicalGaussianMixture(n_init=1, normalize=norm)
+        m.fit(A, np.ones(len(A)))
+        m.predict(A)
+        m.predict_proba(A)
+        m.fit(B, np.ones(len(B)))
+        K = m.n_clusters_
+        Qp = np.vstack([A, B])
+        pl, pp = m.predict(Qp), m.predict_proba(Qp)
+        run.case(key=("refit-fewer", norm), nontrivial=True)
+        if pl.min() < 0 or pl.max() >= K or pp.shape != (len(Qp), K):
+            run.fail("predicted-label-out-of-range", f"fit(3 blobs), predict, fit(1 blob): predict range [{pl.min()},{pl.max()}], predict_proba shape {pp.shape} "
+                     f"for K={K}", normalize=norm)
 
 
 def main(tier, seed):
@@ -343,6 +376,7 @@ def main(tier, seed):
         check_gmm(run, tier, rng)
         check_hgmm(run, tier, rng)
         refit_sequence_probe(run, rng)
+        refit_fewer_clusters_probe(run, rng)
     except Exception:
         import traceback
         run.broken.append(("harness-exception", traceback.format_exc()[-1500:]))
